@@ -418,6 +418,7 @@ Section Proof.
     - rewrite Hchain. reflexivity.
     - rewrite Hchain. reflexivity.
     - rewrite Hchain. reflexivity.
+    - lia.
     - split; [rewrite Hchain; reflexivity|]. split; [exact Hcx13|]. unfold cx2. pose proof (st_len _ _ _ _ SH1s). lia.
     - intros s [<-|Hs].
       + exists vs, vs'. split; [exact Hvs|]. split; [rewrite Hchain; reflexivity|]. eapply diso_step; [exact SH1s|exact SH2|exact Ivs].
